@@ -94,7 +94,7 @@ CHECKS = {
         level="fault_enumeration", ref="DESIGN.md section 4 C15",
         technique="property-based testing (Hypothesis) with exhaustive enumeration of every attribute occurrence x {$, empty} x {strict, lenient} per generated population; decision-table oracle from the statement",
         text="For each generated conforming population every non-derived attribute occurrence (every kind, optional/required, own/inherited, inside complex parts) is nulled in turn and read in both modes by the driver and by p21read; severity, exit status, the written filler and the integrity of all other instances are compared with the statement's table.",
-        note="Enumeration is exhaustive per population (quick tier caps repeats of the same class per population, counted). The outcome of an *empty* required value in lenient mode is not fixed by the statement and is executed but not asserted. Defined types over INTEGER/REAL/NUMBER/STRING are classified by their base kind."),
+        note="Enumeration is exhaustive per population (quick tier caps repeats of the same class per population, counted). The outcome of an *empty* required value in lenient mode is not fixed by the statement and is executed but not asserted. Defined types over INTEGER/REAL/NUMBER/STRING are classified by their base kind. The 'empty' variant goes to a third of the slots and to every last slot; the as-found case of the repaired defect F92 is judged on every run (c15.REGRESSION). Open findings: F36 (errors of non-head parts of complex instances dropped) and F83 (a re-declaration that drops OPTIONAL, brought along by another part of a complex instance, is ignored) - the latter attributed only when the reader's result is exactly what the declaration alone asks for."),
     "C16": dict(
         level="exploration", ref="DESIGN.md section 4 C16",
         technique="property-based testing (Hypothesis): generated schema x (partially filled) population x state assignment x save/load cycles; model comparison via independent parser of the working-session syntax, state comparison, byte comparison of successive saves",
